@@ -43,6 +43,7 @@ type Op struct {
 	Ev    int    // REGEV
 	ID    int
 	Flag  bool
+	Amend bool   // REGOUT: the handler rewrites TargetCompID of the message it is shown
 	Label string // generator's classification of an inbound message (for the oracles)
 	Seq   int    // inbound: the sequence number it carries (-1 none / non numeric)
 	Hb    int
@@ -105,7 +106,7 @@ func (o *Op) enc() string {
 	case "REGIN":
 		return "REGIN " + hx(o.Mt) + " " + strconv.Itoa(o.ID) + " " + b01(o.Flag)
 	case "REGOUT":
-		return "REGOUT " + hx(o.Mt) + " " + strconv.Itoa(o.ID) + " " + b01(o.Flag)
+		return "REGOUT " + hx(o.Mt) + " " + strconv.Itoa(o.ID) + " " + b01(o.Flag) + " " + b01(o.Amend)
 	case "REGEV":
 		return "REGEV " + strconv.Itoa(o.Ev) + " " + strconv.Itoa(o.ID) + " " + b01(o.Flag)
 	}
@@ -219,6 +220,7 @@ func appMessage(app string, a, b []byte) messages.Message {
 // ---------- running a scenario on the implementation ----------
 
 type obs struct {
+	Views     map[int][]byte
 	State     int
 	Cancelled bool
 	Stopped   bool
@@ -262,6 +264,8 @@ type runner struct {
 	st      *store
 	log     []string // handler/store call log of the current op, in call order
 	sendErr bool
+	views   map[int][]byte // per sequence number: the bytes the last outgoing handler was shown
+	amended bool
 }
 
 func newRunner(sc *Scenario) (*runner, error) {
@@ -324,6 +328,8 @@ func (r *runner) observe() obs {
 	}
 	o.Items = r.log
 	r.log = nil
+	o.Views = r.views
+	r.views = nil
 	return o
 }
 
@@ -371,9 +377,22 @@ func (r *runner) apply(op *Op) (o obs, line string) {
 			return fl
 		})
 	case "REGOUT":
-		id, fl := op.ID, op.Flag
+		id, fl, am := op.ID, op.Flag, op.Amend
+		if am {
+			r.amended = true
+		}
 		r.h.HandleOutgoing(op.Mt, func(msg simplefixgo.SendingMessage) bool {
-			r.log = append(r.log, "O"+strconv.Itoa(id)+":"+strconv.Itoa(msg.HeaderBuilder().MsgSeqNum()))
+			seq := msg.HeaderBuilder().MsgSeqNum()
+			r.log = append(r.log, "O"+strconv.Itoa(id)+":"+strconv.Itoa(seq))
+			if fl && am {
+				msg.HeaderBuilder().SetFieldTargetCompID("amd" + strconv.Itoa(id))
+			}
+			if b, err := msg.ToBytes(); err == nil {
+				if r.views == nil {
+					r.views = map[int][]byte{}
+				}
+				r.views[seq] = append([]byte{}, b...)
+			}
 			return fl
 		})
 	case "REGEV":
